@@ -778,9 +778,9 @@ func TestVerifC07(t *testing.T) {
 	defer o.close()
 	r := newVrand(vseed() + 61)
 	c := vdefault()
-	n := 16
+	n := 28
 	if vthorough() {
-		n = 400
+		n = 420
 	}
 	vloadFiles()
 	cnt := 0
@@ -788,9 +788,28 @@ func TestVerifC07(t *testing.T) {
 	for i, d := range vpick(r.fork(3), n) {
 		rr := r.fork(uint64(700 + i))
 		var X []byte
-		switch i % 5 {
+		switch i % 7 {
 		case 0:
 			X = d.data
+		case 5, 6:
+			// partial: the first words are missing (5), a block of words inside is missing (6)
+			ws := strings.Fields(string(d.data))
+			cut := len(ws) * (5 + rr.intn(10)) / 100
+			from := 0
+			if i%7 == 6 && len(ws) > 2*cut+2 {
+				from = cut + rr.intn(len(ws)-2*cut)
+			}
+			ws = append(append([]string(nil), ws[:from]...), ws[from+cut:]...)
+			var sb strings.Builder
+			for j, w := range ws {
+				sb.WriteString(w)
+				if j%9 == 8 {
+					sb.WriteByte('\n')
+				} else {
+					sb.WriteByte(' ')
+				}
+			}
+			X = []byte(sb.String())
 		case 4:
 			// partial: the tail of the text is missing, nothing else changed
 			X = d.data[:len(d.data)*(80+rr.intn(12))/100]
@@ -813,7 +832,9 @@ func TestVerifC07(t *testing.T) {
 		// blocks of several lines, and pads of a few words only (the whole input may then still
 		// be shorter than the corpus document a partial X comes from)
 		for pi, pad := range [][2]string{{voovBlock(rr, 1), voovBlock(rr, 1+rr.intn(3))}, {voovBlock(rr, 7), voovBlock(rr, 1+rr.intn(3))},
-			{voovLine(rr, 4+rr.intn(6)) + "\n", ""}, {voovLine(rr, 5+rr.intn(4)) + "\n", voovLine(rr, 1+rr.intn(2)) + "\n"}} {
+			{voovLine(rr, 4+rr.intn(6)) + "\n", ""}, {voovLine(rr, 5+rr.intn(4)) + "\n", voovLine(rr, 1+rr.intn(2)) + "\n"},
+			// a prefix longer than the words a partial X is missing
+			{voovBlock(rr, 40+rr.intn(40)), voovBlock(rr, 30)}} {
 			pre, post := pad[0], pad[1]
 			pl := strings.Count(pre, "\n")
 			data := append(append([]byte(pre), X...), []byte(post)...)
@@ -837,7 +858,7 @@ func TestVerifC07(t *testing.T) {
 				vmatchCase(o, c, "full08", corpusKeys, needs[0], X, true)
 				vmatchCase(o, c, "full08", corpusKeys, needs[1], data, true)
 			}
-			o.verdictSigCorr("C07", fmt.Sprintf("%d_%d", i, pi), what == "", len(base.Matches) > 0, fmt.Sprintf("pos:%s:%d", vhash(X), pi), sig, needs, map[string]interface{}{"what": vclip(what), "doc": vkey(d), "kind": i % 5, "x_hex": vclip(hx(X)), "prefix_lines": pl})
+			o.verdictSigCorr("C07", fmt.Sprintf("%d_%d", i, pi), what == "", len(base.Matches) > 0, fmt.Sprintf("pos:%s:%d", vhash(X), pi), sig, needs, map[string]interface{}{"what": vclip(what), "doc": vkey(d), "kind": i % 7, "x_hex": vclip(hx(X)), "prefix_lines": pl})
 			cnt++
 		}
 	}
